@@ -42,7 +42,8 @@ RULE = ('cases = suite hierarchies (depth <= 3, <= 3 sub-suite lines and <= 4 ca
         'sub-directory; every case gets an outcome from PASS FAIL XFAIL XPASS SKIPPED VALIDATION_ERROR HARD_ERROR '
         'SYNTAX_ERROR act-phase-SYNTAX_ERROR FILE_ACCESS_ERROR PRE_PROCESS_ERROR undecodable-bytes (2-3 textual '
         'variants each); 42 % of the hierarchies get one fault (missing case/suite, dangling link, directory without '
-        'default suite, double inclusion by 7 spellings, cycles, 3 kinds of syntax error, directory as case, bad '
+        'default suite, double inclusion by 7 spellings, cycles, 3 kinds of syntax error, suite file that is not UTF-8, '
+        'directory as case, bad '
         'command line); plus an enumerated verdict matrix (outcome x variant x placement).  Non-trivial = (>= 2 suite '
         'files or a glob) and (>= 1 unsuccessful case or an invalid hierarchy); distinct = distinct generated tree')
 ASSUMPTIONS = [
@@ -60,6 +61,10 @@ ASSUMPTIONS = [
     'the progress line format `suite NAME: begin|end`, `case  NAME: (T s) IDENTIFIER` is taken from observation; the '
     'manual only says "one event per line"',
     'listing the same case twice (in one or in two suites) is outside the generated domain',
+    'a suite file that cannot be decoded is "an error reading the test suite" (`help reporter progress`): '
+    'INVALID_SUITE / exit 3 expected; the unchanged tree lets the UnicodeDecodeError escape (defect model KF-C16-2)',
+    'KF-C16-1 defect model: the JUnit output equals what the model predicts once an act-phase SYNTAX_ERROR is counted '
+    'as a success (no child element, not in errors=); any other difference on the same input stays a violation',
     'the stderr summary is only checked for `Ran N test(s)` with N = number of cases',
 ]
 
@@ -79,6 +84,8 @@ def materialise(ws, case):
             os.symlink(payload, full)
         elif kind in ('suite', 'raw'):
             ws.write(path, payload)
+        elif kind == 'badsuite':
+            ws.write(path, b'\xff\xfe' + ws.subst(payload).encode('utf-8'))
         elif kind == 'case':
             c = gen.case_file_content(payload)
             if c[0] == 'dir':
@@ -95,8 +102,9 @@ def render(case):
     """human readable form of a case (evidence samples, failure details)"""
     out = ['$ exactly suite [--reporter junit] ' + case['root']]
     for path, kind, payload in case['nodes']:
-        if kind in ('suite', 'raw'):
-            out.append('==> %s (%s)\n%s' % (path, kind, payload))
+        if kind in ('suite', 'raw', 'badsuite'):
+            out.append('==> %s (%s)\n%s' % (path, kind if kind != 'badsuite' else 'suite, preceded by the bytes FF FE',
+                                            payload))
         elif kind == 'case':
             out.append('==> %s (case %s: %s/%d)' % (path, payload['id'], payload['o'], payload.get('v', 0)))
         elif kind == 'link':
@@ -195,7 +203,7 @@ def parse_progress(out):
 
 
 def check_progress_valid(exp, r, markers, home):
-    """-> (bucket, extra) for the first mismatch or None; also returns case -> success map via out param"""
+    """-> ((bucket, extra) of the first mismatch or None, case -> successful? as reported)"""
     suites, final, err = parse_progress(r.out)
     if err:
         return ('progress-output-malformed', {'why': err}), None
@@ -299,7 +307,7 @@ def check_junit_valid(exp, parsed, success_fn, home):
         return ('junit-root-element/%s/%s' % (exp_tag, root_tag), {}), None
     remaining = Counter(rp for rp, _ in exp.cases)
     obs_success = {}
-    exp_by_suite = dict((s, [c for c, _ in cs]) for s, cs in exp.suites)
+    groups = []
     tot_tests = tot_bad = 0
     for sname, counters, cases in suites:
         n_fail = n_err = 0
@@ -329,13 +337,14 @@ def check_junit_valid(exp, parsed, success_fn, home):
                                                          'failure children': n_fail, 'error children': n_err}), None
         tot_tests += counters['tests']
         tot_bad += counters['failures'] + counters['errors']
-        sreal = [s for s in exp.resolve_name(sname or '', home) if s in exp_by_suite]
-        if len(sreal) == 1 and sorted(exp_by_suite[sreal[0]]) != sorted(reals):
-            return ('junit-cases-in-wrong-testsuite', {'suite': sname, 'expected': exp_by_suite[sreal[0]],
-                                                       'observed': reals}), None
+        groups.append(sorted(reals))
     missing = [c for c, n in remaining.items() if n > 0]
     if missing:
         return ('junit-missing-testcase', {'missing': missing}), None
+    # one testsuite element per suite (a suite without cases may be left out): same grouping, whatever the names
+    exp_groups = sorted(sorted(c for c, _ in cs) for _, cs in exp.suites if cs)
+    if sorted(g for g in groups if g) != exp_groups:
+        return ('junit-cases-grouped-differently', {'expected': exp_groups, 'observed': sorted(groups)}), None
     n_bad = sum(1 for _, pl in exp.cases if not success_fn(pl))
     if tot_tests != len(exp.cases):
         return ('junit-tests-total', {'expected': len(exp.cases), 'observed': tot_tests}), None
@@ -349,13 +358,13 @@ def check(case) -> Verdict:
     exp = Expect(case)
     m = exp.m
     meta = case.get('meta') or {}
-    labels = ['fault:%s' % meta.get('fault'), 'root:%s' % meta.get('root_style')]
+    labels = ['root:%s' % meta.get('root_style')] + (['fault:%s' % meta['fault']] if meta.get('fault') else [])
     if exp.bad_model:
         # the generator left the domain of the model: never a violation, but counted (must stay ~0)
         return Verdict(True, nontrivial=False, labels=labels + ['OUT-OF-DOMAIN'], sample=exp.bad_model[:2])
-    n_suite_files = sum(1 for _, k, _ in case['nodes'] if k == 'suite')
+    n_suite_files = sum(1 for _, k, _ in case['nodes'] if k in ('suite', 'badsuite'))
     has_glob = any(f.startswith('glob:') for f in m.features)
-    labels += ['feature:' + f for f in sorted(m.features) if f != 'root:dir-arg']
+    labels += ['feature:' + f for f in sorted(m.features) if f not in ('root:dir-arg', 'unreadable-suite')]
     if m.order_doubt:
         labels.append('order-doubt(set-compare)')
 
@@ -369,6 +378,7 @@ def check(case) -> Verdict:
         left_p = rp.sandboxes
         rj = driver.run_inproc(ws, ['suite', '--reporter', 'junit', case['root']])
         markers_j = ws.read_markers()
+        left_j = rj.sandboxes
 
     def bad(bucket, extra=None, **kw):
         d = {'what': bucket, 'model': {'usage': m.usage, 'invalid': m.invalid[:4], 'either': m.either[:2],
@@ -379,9 +389,18 @@ def check(case) -> Verdict:
         d.update(extra or {})
         return fail(bucket, d, labels=labels, nontrivial=True, **kw)
 
+    # defect model KF-C16-2: a suite file that is not UTF-8 is the only thing wrong, and the decoding error escapes
+    if m.invalid and all(x.startswith('unreadable-suite:') for x in m.invalid) and not m.usage:
+        if all((r.exception or '').startswith('UnicodeDecodeError') and r.out == '' and r.exit_code is None
+               for r in (rp, rj)) and not markers_p and not markers_j:
+            return Verdict(ok=False, known='KF-C16-2', bucket='undecodable-suite-file-escapes-as-exception',
+                           detail={'exception': rp.exception[:300], 'case': render(case)},
+                           labels=labels + ['class:invalid', 'KF-C16-2'], nontrivial=n_suite_files >= 2)
     for name, r in (('progress', rp), ('junit', rj)):
-        if r.exception or r.timed_out:
-            return bad(name + '-escaped-exception-or-timeout', {'exception': r.exception})
+        if r.timed_out:
+            return Verdict(inconclusive=True, labels=labels + ['timeout'])  # 60 s alarm: load artefact, never a verdict
+        if r.exception:
+            return bad(name + '-escaped-exception', {'exception': r.exception})
         if r.cwd_changed or r.env_diff:
             return bad(name + '-cwd-or-env-changed', {'cwd': r.cwd_changed, 'env': r.env_diff})
 
@@ -399,7 +418,6 @@ def check(case) -> Verdict:
 
     invalid = bool(m.invalid)
     if not invalid and m.either:
-        labels.append('either:directory-as-case')
         if rp.exit_code == ref.EXIT_INVALID or rj.exit_code == ref.EXIT_INVALID:
             invalid = True  # the reading "not a file => invalid suite": must then hold for both reporters
     # --- invalid suite
@@ -437,8 +455,8 @@ def check(case) -> Verdict:
     mis, succ_p = check_progress_valid(exp, rp, markers_p, home)
     if mis:
         return bad(mis[0], mis[1])
-    if left_p:
-        return bad('progress-sandbox-left-behind', {'sandboxes': left_p})
+    if left_p or left_j:
+        return bad('sandbox-left-behind', {'after progress run': left_p, 'after junit run': left_j})
     # JUnit
     if rj.exit_code != ref.EXIT_OK:
         return bad('junit-exit-code/%s' % rj.exit_code)
